@@ -31,11 +31,11 @@ def decode : Ty → Bytes → Option Val
   | .vector t n, bs =>
     match splitParts (List.replicate n t.fixedLen?) bs with
     | none => none
-    | some ps => (ps.mapM (decode t)).map .seq
+    | some ps => (mapOpt (decode t) ps).map .seq
   | .list t lim, bs =>
     match splitList t.fixedLen? lim bs with
     | none => none
-    | some ps => (ps.mapM (decode t)).map .seq
+    | some ps => (mapOpt (decode t) ps).map .seq
   | .bitvector n, bs =>
     if bs.length = (n + 7) / 8 ∧ leToNat bs < 2 ^ n then some (.bits (natToBits n (leToNat bs))) else none
   | .bitlist lim, bs =>
